@@ -615,6 +615,8 @@ class G:
             # caller's stack and cannot wait for awaitables - like loop-less mode, synchronous sinks only
             adj = {}
             for n in self.graph:
+                if n['op'] == 'slice' and n.get('end') == 0:
+                    continue        # slice(end=0) detaches itself from its parent as soon as it is built
                 for u in n.get('up', []):
                     adj.setdefault(u, set()).add(n['id'])
                     adj.setdefault(n['id'], set()).add(u)
